@@ -15,7 +15,7 @@ from ..core import SEED, Run
 from ..pool import run_ops
 from ..tlc import validate_traces
 
-TIERS = {"quick": dict(cap=220, hv=900, variants=2), "thorough": dict(cap=6000, hv=100000, variants=3)}
+TIERS = {"quick": dict(cap=220, hv=900, variants=2), "thorough": dict(cap=2500, hv=100000, variants=2)}
 
 
 def xonsh_cases(run: Run, tier: str) -> list[dict]:
